@@ -1024,6 +1024,91 @@ def wiring():
     return "\n".join(L), rows
 
 
+GUARD_FILES = ["mass_function/integrate_hmf.py", "mass_function/fitting_functions.py", "mass_function/hmf.py", "helpers/sample.py",
+               "density_field/transfer_models.py", "density_field/filters.py", "density_field/halofit.py", "density_field/transfer.py",
+               "alternatives/wdm.py", "halos/mass_definitions.py", "cosmology/growth_factor.py", "cosmology/cosmo.py"]
+
+
+def guards():
+    """every comparison of a quantity with a numeric literal in the numerical modules (thresholds of small-argument branches, validity
+    ranges of validators and cut masks, grid limits): (site, canonical text).  Canonical: literal on the right, `not (a op b)` written
+    with the negated operator, numeric sub-expressions folded, chained comparisons split, `len(...)` tests left out."""
+    flip = {ast.Lt: ast.Gt, ast.Gt: ast.Lt, ast.LtE: ast.GtE, ast.GtE: ast.LtE, ast.Eq: ast.Eq, ast.NotEq: ast.NotEq}
+    neg = {ast.Lt: ast.GtE, ast.Gt: ast.LtE, ast.LtE: ast.Gt, ast.GtE: ast.Lt, ast.Eq: ast.NotEq, ast.NotEq: ast.Eq}
+    sym = {ast.Lt: "<", ast.Gt: ">", ast.LtE: "<=", ast.GtE: ">=", ast.Eq: "==", ast.NotEq: "!="}
+
+    def num(e):
+        if isinstance(e, ast.Constant) and isinstance(e.value, (int, float)) and not isinstance(e.value, bool):
+            return float(e.value)
+        if isinstance(e, ast.UnaryOp) and isinstance(e.op, ast.USub) and num(e.operand) is not None:
+            return -num(e.operand)
+        if isinstance(e, ast.BinOp) and num(e.left) is not None and num(e.right) is not None:
+            a, b = num(e.left), num(e.right)
+            try:
+                return {ast.Add: a + b, ast.Sub: a - b, ast.Mult: a * b, ast.Div: a / b, ast.Pow: a ** b}[type(e.op)]
+            except Exception:
+                return None
+        return None
+    rows = []
+    for rel in GUARD_FILES:
+        path = os.path.join(SRC, rel)
+        if not os.path.exists(path):
+            continue
+        tree = ast.parse(open(path).read())
+
+        def visit(node, stack, negated=False):
+            for ch in ast.iter_child_nodes(node):
+                if isinstance(ch, (ast.ClassDef, ast.FunctionDef)):
+                    visit(ch, stack + [ch.name])
+                    continue
+                if isinstance(ch, ast.UnaryOp) and isinstance(ch.op, ast.Not) and isinstance(ch.operand, ast.Compare):
+                    handle(ch.operand, stack, True)
+                    continue
+                if isinstance(ch, ast.Compare):
+                    handle(ch, stack, False)
+                visit(ch, stack)
+
+        def handle(c, stack, negated):
+            items = [c.left] + list(c.comparators)
+            for (l, op, r) in zip(items, c.ops, items[1:]):
+                if type(op) not in flip:
+                    continue
+                ln, rn = num(l), num(r)
+                if (ln is None) == (rn is None):
+                    continue
+                if ln is not None:
+                    l, r, op, rn = r, l, flip[type(op)](), ln
+                opc = type(op)
+                if negated:
+                    opc = neg[opc]
+                txt = ast.unparse(l)
+                if txt.startswith("len(") or "len(" in txt:
+                    continue
+                rows.append((f"{rel}:{'.'.join(stack)}", f"{txt} {sym[opc]} {rn!r}"))
+            for sub in items:
+                visit(sub, stack)
+        visit(tree, [])
+    rows = sorted(set(rows))
+    return guards_lean(rows, "Gen", "GENERATED by tools/pyexpr.py from /repo/src/hmf — do not edit."), rows
+
+
+GUARD_AREAS = {"mass_function/integrate_hmf.py": "integrate", "mass_function/fitting_functions.py": "fits", "mass_function/hmf.py": "massFunction",
+               "helpers/sample.py": "sample", "density_field/transfer_models.py": "transferModels", "density_field/filters.py": "filters",
+               "density_field/halofit.py": "halofit", "density_field/transfer.py": "transfer", "alternatives/wdm.py": "wdm",
+               "halos/mass_definitions.py": "mdef", "cosmology/growth_factor.py": "growth", "cosmology/cosmo.py": "cosmo"}
+
+
+def guards_lean(rows, ns, header):
+    L = [f"/-! {header} -/", f"namespace Hmf.{ns}.Guards", ""]
+    for rel, area in GUARD_AREAS.items():
+        sel = [(a.split(":", 1)[1], b) for a, b in rows if a.split(":", 1)[0] == rel]
+        L.append(f"def {area} : List (String × String) := [")
+        L.append(",\n".join(f"  ({lean_str(a)}, {lean_str(b)})" for a, b in sel))
+        L.append("]")
+    L += ["", f"end Hmf.{ns}.Guards"]
+    return "\n".join(L) + "\n"
+
+
 COMPONENTS = [
     # (namespace, file, base class, [(method, is_property)], input attrs of self)
     ("Wdm", "alternatives/wdm.py", "WDM", [("transfer", False), ("lam_eff_fs", True), ("m_fs", True), ("lam_hm", True), ("m_hm", True)],
@@ -1112,6 +1197,11 @@ def main():
     emit_module(os.path.join(gen, "ExprFlow.lean"), "Flow", fitems, extra=wtext)
     out["flow"] = fmeta
     out["wiring"] = wrows
+    gtext, grows = guards()
+    gp = os.path.join(gen, "Guards.lean")
+    if not os.path.exists(gp) or open(gp).read() != gtext:
+        open(gp, "w").write(gtext)
+    out["guards"] = grows
     print("pyexpr: flow", len(fitems), "unsupported", {k: v["unsupported"] for k, v in fmeta.items() if "unsupported" in v})
     mitems, mmeta = module_functions()
     emit_module(os.path.join(gen, "ExprHalofit.lean"), "Halofit", mitems)
